@@ -850,6 +850,13 @@ Interval<To_Boundary, To_Info>::mul_assign(const From1& x, const From2& y) {
     if (gt(LOWER, to_lower, to_info, LOWER, tmp, tmp_info)) {
       to_lower = tmp;
       rl = tmp_r;
+      // The info of the chosen candidate comes with its value.
+      to_info.set_boundary_property(LOWER, SPECIAL,
+                                    tmp_info.get_boundary_property(LOWER,
+                                                                   SPECIAL));
+      to_info.set_boundary_property(LOWER, OPEN,
+                                    tmp_info.get_boundary_property(LOWER,
+                                                                   OPEN));
     }
     tmp_info.clear();
     tmp_r = Boundary_NS::mul_assign(UPPER, tmp, tmp_info,
@@ -861,6 +868,13 @@ Interval<To_Boundary, To_Info>::mul_assign(const From1& x, const From2& y) {
     if (lt(UPPER, upper(), to_info, UPPER, tmp, tmp_info)) {
       upper() = tmp;
       ru = tmp_r;
+      // The info of the chosen candidate comes with its value.
+      to_info.set_boundary_property(UPPER, SPECIAL,
+                                    tmp_info.get_boundary_property(UPPER,
+                                                                   SPECIAL));
+      to_info.set_boundary_property(UPPER, OPEN,
+                                    tmp_info.get_boundary_property(UPPER,
+                                                                   OPEN));
     }
   }
   assign_or_swap(lower(), to_lower);
